@@ -57,25 +57,29 @@ def flags_ser(d: dict) -> list:
     return [[fkey(k), fval(v)] for k, v in d.items()]
 
 
-def sc_entry(k: str, v):
+def sc_entry(k: str, v, nested: bool = False):
     kb = list(k.encode('utf-8'))
-    if isinstance(v, (bytes, bytearray)):
-        return {'k': kb, 't': 'bytes', 'v': list(v), 'neg': False}
-    if isinstance(v, bool):
-        return {'k': kb, 't': 'other', 'v': [], 'neg': False}
-    if isinstance(v, int):
+    e = {'k': kb, 't': 'other', 'v': [], 'neg': False, 'items': []}
+    if isinstance(v, bytes):
+        e.update(t='bytes', v=list(v))
+    elif isinstance(v, bytearray):
+        e.update(t='bytearray', v=list(v))
+    elif isinstance(v, bool):
+        pass
+    elif isinstance(v, int):
         mag = abs(v)
-        return {'k': kb, 't': 'int', 'v': list(mag.to_bytes((mag.bit_length() + 7) // 8, 'big')),
-                'neg': v < 0}
-    if isinstance(v, str):
-        return {'k': kb, 't': 'str', 'v': list(v.encode('utf-8')), 'neg': False}
-    if isinstance(v, float):
+        e.update(t='int', v=list(mag.to_bytes((mag.bit_length() + 7) // 8, 'big')), neg=v < 0)
+    elif isinstance(v, str):
+        e.update(t='str', v=list(v.encode('utf-8')))
+    elif isinstance(v, float):
         import struct
         try:
-            return {'k': kb, 't': 'float', 'v': list(struct.pack('!f', v)), 'neg': False}
+            e.update(t='float', v=list(struct.pack('!f', v)))
         except OverflowError:
-            return {'k': kb, 't': 'other', 'v': [], 'neg': False}
-    return {'k': kb, 't': 'other', 'v': [], 'neg': False}
+            e.update(t='floatoverflow')
+    elif isinstance(v, (list, tuple)) and not nested:
+        e.update(t='list', items=[sc_entry('', x, True) for x in v])
+    return e
 
 
 def bc_val(v):
@@ -123,6 +127,11 @@ class _WatchDeque(collections.deque):
         self._note(item)
 
 
+class HarnessAbort(BaseException):
+    """Raised into the implementation when an execution exceeds the step budget (a loop that
+    does not end); the trace recorded so far is marked truncated."""
+
+
 class Recorder:
     def __init__(self, now: int = 1_700_000_000, seed: int = 0, watch_alloc: bool = False):
         import tapescript.functions as F
@@ -162,6 +171,8 @@ class Recorder:
         self.ct_results = []
         self.nsteps = 0
         self.max_events = 20000
+        self.max_steps = 60000
+        self.aborted = False
         self.truncated = False
         self.hw_items = 0
         self.dropped = 0
@@ -282,6 +293,10 @@ class Recorder:
 
     def _wrap_op(self, code, fn):
         def op(tape, stack, cache):
+            if self.nsteps > self.max_steps:
+                self.truncated = True
+                self.aborted = True
+                raise HarnessAbort(f'more than {self.max_steps} steps')
             self.stack_obj, self.cache_obj = stack, cache
             rec = {'entered': False, 'code': code, 'prim': None}
             self.hist.append((self.script_idx, len(self.fstack), tape.pointer - 1, code))
@@ -461,5 +476,5 @@ class Recorder:
         return {'id': ident if ident is not None else '', 'cfg': cfg, 'ev': self.events,
                 'outcome': {'verdict': verdict, 'raised': type(exc).__name__ if exc is not None else '',
                             'api_exc': type(api_exc).__name__ if api_exc is not None else '',
-                            'truncated': self.truncated, 'max_token_req': self.max_token_req,
+                            'truncated': self.truncated, 'aborted': self.aborted, 'max_token_req': self.max_token_req,
                             'steps': self.nsteps}}
